@@ -198,8 +198,14 @@ def run(tier, seed):
                 # a further, complete run on the SAME driver object (stale results / schemes of the first run would show here)
                 try:
                     lims2 = {'tol': -1.0, 'min': 1, 'max': [e['np'] for e in rec.events if e['k'] == 'E'][0]}
+                    first_obj, first_val = ret[3], np.array(ret[3], dtype=float, copy=True)
                     ret3 = DP.run_again(S, rec, c, lims2)
                     ev3 = DP.ret_event(S, rec, ret3, c, lims2, with_c05=False)
+                    if not np.array_equal(np.asarray(first_obj, dtype=float), first_val):
+                        # the value reported by the first run (the object handed to the caller) was overwritten by the second run
+                        rep.violation('C05_FinalIsCombination', {'strategy': c['strategy'], 'event': 'Ret', 'second_run': True, 'reported_value_altered': True},
+                                      {'config': str(c), 'reported_by_first_run': [float(x) for x in np.atleast_1d(first_val)], 'same_object_after_second_run': [float(x) for x in np.atleast_1d(np.asarray(first_obj, dtype=float))]},
+                                      what='%s: the combined value reported by the first run was altered by a second run on the same driver object' % name)
                     ind = DP.independent_combination(S)
                     pw = DP.points_and_weights_value(S)
                     ev3['final_comb'] = DP.close(ret3[3], ind)
